@@ -574,3 +574,79 @@ pub fn shrink_text(text: &str, limit: usize) -> Vec<String> {
     }
     out
 }
+
+/// A near twin of a program: same parenthesis shape, one atom changed (an operator for
+/// another operator or for the name of a helper, a literal for another literal).  Caches that
+/// are keyed too coarsely (by position, by shape, by name) confuse a program with its twin.
+pub fn near_twin(text: &str, r: &mut Rng) -> Option<String> {
+    let t = parse(text)?;
+    let mut ps = Vec::new();
+    paths(&t, &mut Vec::new(), &mut ps);
+    // helper names defined in the program
+    let mut helpers: Vec<String> = Vec::new();
+    if let Sx::List(items) = &t {
+        for it in items.iter() {
+            if let Sx::List(v) = it {
+                if v.len() >= 3 {
+                    if let (Sx::Atom(k), Sx::Atom(n)) = (&v[0], &v[1]) {
+                        if k == "defun" || k == "defun-inline" {
+                            helpers.push(n.clone());
+                        }
+                    }
+                }
+            }
+        }
+    }
+    let cands: Vec<&Vec<usize>> = ps
+        .iter()
+        .filter(|(sz, p)| {
+            *sz == 1 && p.len() >= 2 && !(p.len() == 2 && p[1] <= 1) && p[0] >= 2
+        })
+        .map(|(_, p)| p)
+        .collect();
+    if cands.is_empty() {
+        return None;
+    }
+    // half of the time insist on the mutation that changes which global names a body
+    // mentions: an operator in head position becomes a call of a helper
+    let want_call = !helpers.is_empty() && r.chance(1, 2);
+    for attempt in 0..40 {
+        let p = *r.pick(&cands);
+        if want_call && attempt < 30 {
+            let is_head_op = *p.last().unwrap() == 0
+                && matches!(get(&t, p), Sx::Atom(a) if OPS2.contains(&a.as_str()));
+            if !is_head_op {
+                continue;
+            }
+            let new = r.pick(&helpers).clone();
+            return Some(print(&replace(&t, p, Some(Sx::Atom(new)))));
+        }
+        let a = match get(&t, p) {
+            Sx::Atom(a) => a.clone(),
+            _ => continue,
+        };
+        let head = *p.last().unwrap() == 0;
+        let new = if head && OPS2.contains(&a.as_str()) {
+            if !helpers.is_empty() && r.chance(1, 2) {
+                r.pick(&helpers).clone()
+            } else {
+                r.pick(&OPS2).to_string()
+            }
+        } else if !head
+            && (a.starts_with(|c: char| c.is_ascii_digit())
+                || a.starts_with('-')
+                || a.starts_with('"'))
+        {
+            r.pick(&LITS).to_string()
+        } else if head && helpers.contains(&a) {
+            r.pick(&OPS2).to_string()
+        } else {
+            continue;
+        };
+        if new == a {
+            continue;
+        }
+        return Some(print(&replace(&t, p, Some(Sx::Atom(new)))));
+    }
+    None
+}
